@@ -39,3 +39,38 @@ package distance
 //@ lemma jacSum_sym_step(x []uint64, y []uint64, n int): n > 0 && andSum(x, y, n-1) == andSum(y, x, n-1) && orSum(x, y, n-1) == orSum(y, x, n-1) ==> andSum(x, y, n) == andSum(y, x, n) && orSum(x, y, n) == orSum(y, x, n)
 //@   property C20
 //@   arith bv
+
+// Scalar float kernels: the result is the left fold in index order (this *is* the reference
+// definition; rounding is IEEE round-to-nearest-even at float32 after every operation).
+//@ spec dotFold(x []float32, y []float32, n int) float32 = ite(n <= 0, 0, dotFold(x, y, n-1) + x[n-1]*y[n-1])
+//@ spec sqFold(x []float32, y []float32, n int) float32 = ite(n <= 0, 0, sqFold(x, y, n-1) + (x[n-1]-y[n-1])*(x[n-1]-y[n-1]))
+
+//@ func dotProductPureGo
+//@   property C20
+//@   arith bv
+//@   requires len(y) >= len(x)
+//@   ensures sameFloat(result, dotFold(x, y, len(x)))
+//@   loop 1 invariant rangeindex >= -1 && rangeindex < len(x)
+//@   loop 1 invariant sameFloat(sum, dotFold(x, y, rangeindex+1))
+
+//@ func squaredEuclideanDistancePureGo
+//@   property C20
+//@   arith bv
+//@   requires len(y) >= len(x)
+//@   ensures sameFloat(result, sqFold(x, y, len(x)))
+//@   loop 1 invariant rangeindex >= -1 && rangeindex < len(x)
+//@   loop 1 invariant sameFloat(sum, sqFold(x, y, rangeindex+1))
+
+// every addend is symmetric in its arguments (IEEE identities), hence so are the folds
+//@ lemma fmul_comm(a float32, b float32): sameFloat(a*b, b*a)
+//@   property C20
+//@   arith bv
+//@ lemma fsub_antisym(a float32, b float32): sameFloat(b-a, -(a-b)) || (a-b == 0 && b-a == 0)
+//@   property C20
+//@   arith bv
+//@ lemma fsq_neg(d float32): sameFloat((-d)*(-d), d*d)
+//@   property C20
+//@   arith bv
+//@ lemma fsq_zero(d float32, e float32): d == 0 && e == 0 ==> sameFloat(d*d, e*e)
+//@   property C20
+//@   arith bv
